@@ -49,7 +49,12 @@ var universe = []scMethod{
 type CfgRule struct {
 	Selector string   `json:"selector"`
 	Rule     RuleSpec `json:"rule"`
+	// Adds are the rule's additional_bindings: they bind to the same
+	// methods as the rule itself.
+	Adds []RuleSpec `json:"additional_bindings,omitempty"`
 }
+
+func (cr CfgRule) all() []RuleSpec { return append([]RuleSpec{cr.Rule}, cr.Adds...) }
 
 // CfgCase is a replayable C19 configuration.
 type CfgCase struct {
@@ -213,6 +218,9 @@ func buildSCVia(perMethod map[int][]RuleSpec, cfg []CfgRule, via string, rest ..
 		for _, c := range cfg {
 			hr := httpRule(c.Rule)
 			hr.Selector = c.Selector
+			for _, ab := range c.Adds {
+				hr.AdditionalBindings = append(hr.AdditionalBindings, httpRule(ab))
+			}
 			rules = append(rules, hr)
 		}
 		var opt larking.MuxOption
@@ -324,7 +332,7 @@ func execCfg(r *mon.Run, c *CfgCase, rng *rand.Rand) {
 			multi = true
 		}
 		for _, mi := range b {
-			perMethod[mi] = append(perMethod[mi], cr.Rule)
+			perMethod[mi] = append(perMethod[mi], cr.all()...)
 		}
 	}
 	A, err := buildSC(perMethod, nil)
@@ -394,12 +402,21 @@ func execCfg(r *mon.Run, c *CfgCase, rng *rand.Rand) {
 		return
 	}
 	r.Count("both_accepted", 1)
+	var flat []CfgRule
 	for _, cr := range c.Rules {
+		flat = append(flat, cr)
+		for _, ab := range cr.Adds {
+			flat = append(flat, CfgRule{Selector: cr.Selector, Rule: ab})
+		}
+	}
+	for fi, cr := range flat {
 		t, err := tmplref.Parse(cr.Rule.Tmpl)
 		if err != nil {
 			continue
 		}
 		binds := modelBinds(cr.Selector)
+		isAdd := fi > 0 && len(c.Rules) < len(flat) && !isPrimary(c, cr)
+		_ = isAdd
 		for k := 0; k < 2; k++ {
 			in := Instantiate(rng, t, reqDesc(), false)
 			verb := reqVerbFor(rng, cr.Rule.Verb)
@@ -422,6 +439,9 @@ func execCfg(r *mon.Run, c *CfgCase, rng *rand.Rand) {
 				sk := "exact"
 				if strings.HasSuffix(cr.Selector, "*") {
 					sk = "wildcard"
+				}
+				if isAdd {
+					sk += ":additional-binding"
 				}
 				if c.Via != "" {
 					sk += ":via-" + c.Via
@@ -461,6 +481,15 @@ func min(a, b int) int {
 		return a
 	}
 	return b
+}
+
+func isPrimary(c *CfgCase, cr CfgRule) bool {
+	for _, p := range c.Rules {
+		if p.Selector == cr.Selector && p.Rule == cr.Rule {
+			return true
+		}
+	}
+	return false
 }
 
 func cfgRuleTemplates(k int, rng *rand.Rand) RuleSpec {
@@ -505,6 +534,14 @@ func RunC19(r *mon.Run) {
 		}
 		if i%7 == 3 {
 			c.Rest = c19Rests[(i/7)%len(c19Rests)]
+		}
+		if i%5 == 1 {
+			// additional bindings on the configured rules
+			for j := range c.Rules {
+				for a := 0; a <= (i/5)%2; a++ {
+					c.Rules[j].Adds = append(c.Rules[j].Adds, cfgRuleTemplates(10+3*j+a, rng))
+				}
+			}
 		}
 		if r.SampleN() < 5 && i%97 == 0 {
 			r.Sample(c)
@@ -556,7 +593,11 @@ var healthzVariants = []struct {
 	emptyFiles bool
 	// rest: see decorate
 	rest string
+	// connTimeout: the mux is built with this (small) ConnectionTimeoutOption
+	// and the watch is kept open for several times as long between updates
+	connTimeout time.Duration
 }{
+	{name: "watch-outlives-connection-timeout", connTimeout: 100 * time.Millisecond},
 	{name: "config-lists-other-apis", rest: "lists-other-apis"},
 	{name: "config-lists-other-apis+own-check-rule", rest: "lists-other-apis", post: []*annotations.HttpRule{{Selector: "grpc.health.v1.Health.Check", Pattern: &annotations.HttpRule_Get{Get: "/livez"}}}, extra: "/livez"},
 	{name: "config-lists-health-api+health-on-backend", rest: "lists-first-own-api", via: "conn"},
@@ -622,6 +663,9 @@ func healthzVariant(r *mon.Run, rng *rand.Rand, vi int) {
 	mopts := []larking.MuxOption{scOpt}
 	if hv.emptyFiles {
 		mopts = append([]larking.MuxOption{larking.FilesOption(new(protoregistry.Files))}, mopts...)
+	}
+	if hv.connTimeout > 0 {
+		mopts = append(mopts, larking.ConnectionTimeoutOption(hv.connTimeout))
 	}
 	mux, err := larking.NewMux(mopts...)
 	if err != nil {
@@ -732,7 +776,7 @@ func healthzVariant(r *mon.Run, rng *rand.Rand, vi int) {
 			// 5.5.2/5.5.3) must not end the watch
 			wsutil.WriteClientMessage(conn, ws.OpPing, []byte("ka"))
 			wsutil.WriteClientMessage(conn, ws.OpPong, nil)
-			time.Sleep(20 * time.Millisecond)
+			time.Sleep(20*time.Millisecond + 3*hv.connTimeout)
 			hs.SetServingStatus("ws.svc", want)
 		}
 		msg, err := wsutil.ReadServerText(conn)
@@ -740,7 +784,7 @@ func healthzVariant(r *mon.Run, rng *rand.Rand, vi int) {
 			if ne, ok := err.(interface{ Timeout() bool }); ok && ne.Timeout() {
 				r.Inconclusive("healthz websocket read timed out")
 			} else {
-				r.Violate("healthz:websocket-watch-ended", fmt.Sprintf("watch stream ended at update %d: %v", i, err), nil)
+				r.Violate("healthz:websocket-watch-ended:"+hv.name, fmt.Sprintf("config %s: watch stream ended at update %d: %v", hv.name, i, err), nil)
 			}
 			return
 		}
